@@ -62,6 +62,10 @@ func pickS(t *rapid.T, label string, xs ...string) string { return xs[uniformInt
 // execution inside the image (apart from deliberately bad indirect targets).
 func drawRVProgram(t *rapid.T, maxIns int) *rvProgram { return drawRVProgramMin(t, 4, maxIns) }
 
+// rvFreeJalr makes drawRVProgramMin emit indirect jumps through registers x10-x12
+// (never written by generated code) in about every sixth position.
+var rvFreeJalr = false
+
 // drawRVProgramMin draws a program of minIns..maxIns instructions.
 func drawRVProgramMin(t *rapid.T, minIns, maxIns int) *rvProgram {
 	n := minIns + uniformInt(t, maxIns-minIns+1, "n")
@@ -89,7 +93,15 @@ func drawRVProgramMin(t *rapid.T, minIns, maxIns int) *rvProgram {
 	}
 	for len(p.words) < n {
 		i := len(p.words)
-		switch uniformInt(t, 20, "tmpl") {
+		tmpl := uniformInt(t, 20, "tmpl")
+		if rvFreeJalr && uniformInt(t, 6, "freeJalr") == 0 {
+			tmpl = 20
+		}
+		switch tmpl {
+		case 20:
+			// indirect jump through a register nothing may have written: whoever
+			// answers the emulator's question decides where execution continues
+			emit(rvIns("jalr"), rvref.Fields{Rd: uint32(uniformInt(t, 2, "fjrd")), Rs1: uint32(10 + uniformInt(t, 3, "fjrs")), Imm: int64(uniformInt(t, 9, "fjimm")) - 4})
 		case 0, 1, 2:
 			name := pickS(t, "rop", "add", "sub", "sll", "slt", "sltu", "xor", "srl", "sra", "or", "and", "addw", "subw",
 				"sllw", "srlw", "sraw", "mul", "mulh", "mulhsu", "mulhu", "div", "divu", "rem", "remu", "mulw", "divw", "divuw", "remw", "remuw")
